@@ -184,15 +184,24 @@ func Clone(v any) any {
 	case Doc:
 		return Doc(Clone(map[string]any(x)).(map[string]any))
 	case []any:
+		if x == nil {
+			return x
+		}
 		r := make([]any, len(x))
 		for i, f := range x {
 			r[i] = Clone(f)
 		}
 		return r
 	case []float32:
-		return append([]float32(nil), x...)
+		if x == nil {
+			return x
+		}
+		return append(make([]float32, 0, len(x)), x...)
 	case []string:
-		return append([]string(nil), x...)
+		if x == nil {
+			return x
+		}
+		return append(make([]string, 0, len(x)), x...)
 	}
 	return v
 }
